@@ -88,7 +88,11 @@ ClosureClauses ==
         Clause("kinematic-variable-depends-on-four-momenta-only",
                ToSet(Cl.kin_deps[i][2]) \subseteq ToSet(Cl.momenta), <<Cl.kin_deps[i][1], ToSet(Cl.kin_deps[i][2]) \ ToSet(Cl.momenta)>>)
   \* the specification's own prediction of the two key sets (implementation-shaped part)
-  /\ Drift("defined-keys-as-predicted", defined = ExpectedKeys(Rec.trs) \cup SummedKeys(Rec.trs), <<defined, ExpectedKeys(Rec.trs)>>)
+  \* (an aligned model sums rotated projections over the whole spin range of every outer state and registers the
+  \* vanishing amplitudes of that larger range: there the prediction is a lower bound)
+  /\ Drift("defined-keys-as-predicted",
+           IF Rec.aligned = 0 THEN defined = ExpectedKeys(Rec.trs) \cup SummedKeys(Rec.trs)
+           ELSE (ExpectedKeys(Rec.trs) \cup SummedKeys(Rec.trs)) \subseteq defined, <<defined, ExpectedKeys(Rec.trs)>>)
   /\ (Rec.aligned = 0 => Drift("summed-keys-as-predicted", used = SummedKeys(Rec.trs), <<used, SummedKeys(Rec.trs)>>))
   /\ Stat("closure-symbols", Cardinality(free))
 
